@@ -575,7 +575,7 @@ func c05FreshContainerRule(r *core.Run, o *core.O, funcs []*ssa.Function) {
 func c05Panics(r *core.Run) {
 	mapFuncs := r.P.PkgFuncs(mapPkg)
 	r.Explanation += " Round 4 (never panics): kind-restricted reflect.Type methods on reflect.Type parameters of lib/mapping only after the kind was established in the function or at every call site (D8); containers built by reflect.MakeSlice/MakeMap* reach reflect.Value.Set only after an assignability test against the destination (D7 fresh-container); a field value dereferenced because its type is a pointer has passed the allocation step on every hand-over chain (D9)."
-	r.NotDecided += " Also not decided: kind-restricted reflect.Type methods on receivers that are not parameters (reflect.TypeOf(v).Elem() behind ValidatePtr, Deref(t).NumField() of an embedded non-struct field - observed to panic, m.Type().Key() of a reflect.Value parameter); dereferences selected by a reflect.Kind parameter instead of the field's reflect.Type (fillDurationValue); the pairing value.Type()==fieldType itself."
+	r.NotDecided += " Also not decided: kind-restricted reflect.Type methods on receivers that are not parameters (reflect.TypeOf(v).Elem() behind ValidatePtr, Deref(t).NumField() of an embedded non-struct field - observed to panic, m.Type().Key() of a reflect.Value parameter); the pairing value.Type()==fieldType itself."
 	r.Check("D8/K2/reflect-type-kind-established", "a kind-restricted method of reflect.Type (Key: Map; Elem: Array/Chan/Map/Pointer/Slice; NumField/Field…: Struct; Len: Array; In/Out…: Func; Bits: numeric) invoked on a reflect.Type parameter of a lib/mapping function is reachable only when that type's kind was established: inside the function (a Kind()==K test on the parameter) or at every in-package call site (a Kind()==K test on the very type handed over or on the reflect.Value it was taken from; for requirements that admit Pointer also a test behind a one-level pointer-stripping helper; a type built by reflect.SliceOf/MapOf/PointerTo; or the caller's own parameter with a requirement at least as strong)", func(o *core.O) {
 		if !o.Need(len(mapFuncs) > 0, "package "+mapPkg) {
 			return
@@ -630,7 +630,7 @@ func c05Panics(r *core.Run) {
 		}
 		c05FreshTargetRule(r, o, mapFuncs)
 	})
-	r.Check("D9/K1/pointer-field-allocated-before-deref", "where a function of lib/mapping that receives a field as (fieldType reflect.Type, value reflect.Value) takes value.Elem() under fieldType.Kind()==Pointer and uses the result, value has passed the allocation step - a call of an allocator (by role: cannot return without value.Set(reflect.New(…)) unless value.IsNil() is false or a Kind()==Pointer test failed), a direct Set(reflect.New(…)) or the false edge of IsNil() - in the function or, following the value up through callers that pass their own parameter on, at every in-package call site; a hand-over inside a type-switch case of the document value is followed only into callers that can supply a document value of that dynamic type", func(o *core.O) {
+	r.Check("D9/K1/pointer-field-allocated-before-deref", "where a function of lib/mapping that receives a field as (fieldType reflect.Type, value reflect.Value) takes value.Elem() under fieldType.Kind()==Pointer - or, handed the kind instead of the type (fieldKind reflect.Kind, value reflect.Value), under fieldKind==Pointer, at every call site where the kind handed over can be Pointer (it cannot when it is a constant other kind, when the call is behind kind != Pointer / kind == another kind, or when it is X.Kind() behind X == a package-level reflect.TypeOf(<non-pointer T>)) - and uses the result, value has passed the allocation step - a call of an allocator (by role: cannot return without value.Set(reflect.New(…)) unless value.IsNil() is false or a Kind()==Pointer test failed), a direct Set(reflect.New(…)) or the false edge of IsNil() - in the function or, following the value up through callers that pass their own parameter on, at every in-package call site; a hand-over inside a type-switch case of the document value is followed only into callers that can supply a document value of that dynamic type", func(o *core.O) {
 		if !o.Need(len(mapFuncs) > 0, "package "+mapPkg) {
 			return
 		}
@@ -663,6 +663,7 @@ type derefNeed struct {
 	docP  *ssa.Parameter // condition: only when this document value … (nil: always)
 	docF  int            // … or its field #docF (-1: the parameter itself) …
 	condT types.Type     // … has this dynamic type
+	kind  *ssa.Parameter // the dereference is selected by this reflect.Kind parameter of fn being Pointer (nil: by the field's reflect.Type, or unconditional)
 	chain string
 }
 
@@ -670,6 +671,9 @@ func (n derefNeed) key() string {
 	s := n.chain + "#" + n.v.Name() + "." + string(rune('0'+n.vf+1))
 	if n.docP != nil {
 		s += "|" + n.docP.Name() + "." + string(rune('0'+n.docF+1)) + ":" + n.condT.String()
+	}
+	if n.kind != nil {
+		s += "|kind:" + n.kind.Name()
 	}
 	return s
 }
@@ -933,6 +937,50 @@ func c05DerefRule(r *core.Run, o *core.O, funcs []*ssa.Function) {
 			push(derefNeed{fn: f, v: v, vf: -1, docP: dp, docF: df, condT: dt, chain: core.FuncName(f) + " (" + p.InstrPos(in) + ": " + v.Name() + ".Elem() under " + typ.Name() + ".Kind()==Pointer)"})
 		}
 	}
+	// the dereference sites selected by a reflect.Kind parameter (fillDurationValue by role)
+	for _, f := range funcs {
+		for _, k := range f.Params {
+			if !isReflectKind(k.Type()) {
+				continue
+			}
+			isPtr := core.Cmp(token.EQL, func(v ssa.Value) bool { return sameVal(v, k) }, core.IsConstInt(kindPtr))
+			if core.EdgeCount(f, isPtr) == 0 {
+				continue
+			}
+			for _, in := range core.Instrs(f, core.CallTo("(reflect.Value).Elem")) {
+				c, ok := in.(*ssa.Call)
+				if !ok {
+					continue
+				}
+				var v *ssa.Parameter
+				for _, pa := range f.Params {
+					if isReflectValue(pa.Type()) && sameVal(c.Call.Args[0], pa) {
+						v = pa
+					}
+				}
+				used := false
+				if c.Referrers() != nil {
+					for _, rf := range *c.Referrers() {
+						if _, dbg := rf.(*ssa.DebugRef); !dbg {
+							used = true
+						}
+					}
+				}
+				if v == nil || !used || requiresX(f, core.Is(in), isPtr) != nil {
+					continue
+				}
+				o.Site(1, core.FuncName(f))
+				r.Fn(core.FuncName(f))
+				if allocatedBefore(f, in, v, allocs) {
+					continue
+				}
+				dp, df, dt := docCondition(f, in)
+				push(derefNeed{fn: f, v: v, vf: -1, docP: dp, docF: df, condT: dt, kind: k, chain: core.FuncName(f) + " (" + p.InstrPos(in) + ": " + v.Name() + ".Elem() under the kind parameter " + k.Name() + "==Pointer)"})
+			}
+		}
+	}
+	var consts map[*ssa.Global]types.Type
+	var strippers map[*ssa.Function]bool
 	for len(work) > 0 {
 		n := work[0]
 		work = work[1:]
@@ -953,6 +1001,21 @@ func c05DerefRule(r *core.Run, o *core.O, funcs []*ssa.Function) {
 			r.Calls++
 			args := cs.Common().Args
 			a := args[paramIndex(f, n.v)]
+			var nkind *ssa.Parameter
+			if n.kind != nil {
+				// can the kind handed over be Pointer here?
+				if consts == nil {
+					consts = typeConstants(funcs)
+					strippers = ptrStrippers(funcs)
+				}
+				ka := args[paramIndex(f, n.kind)]
+				if c05KindNeverPointer(g, cs, ka, consts, strippers) {
+					continue
+				}
+				if own, isParam := core.Forward(ka).(*ssa.Parameter); isParam && own.Parent() == g {
+					nkind = own // handed on: still conditional on the caller's own kind parameter
+				}
+			}
 			// can this caller supply a document value of the dynamic type the dereference is conditional on?
 			var ndp *ssa.Parameter
 			ndf := -1
@@ -985,7 +1048,7 @@ func c05DerefRule(r *core.Run, o *core.O, funcs []*ssa.Function) {
 					if allocatedBeforePath(g, cs, bp, n.vf, allocs) {
 						continue
 					}
-					push(derefNeed{fn: g, v: bp, vf: n.vf, docP: ndp, docF: ndf, condT: ndt, chain: core.FuncName(g) + " -> " + n.chain})
+					push(derefNeed{fn: g, v: bp, vf: n.vf, docP: ndp, docF: ndf, condT: ndt, kind: nkind, chain: core.FuncName(g) + " -> " + n.chain})
 					continue
 				} else {
 					o.Fail(p.InstrPos(cs), "%s hands the field value on inside %s, which cannot be followed; the chain %s -> %s dereferences it when the field type is a pointer", core.FuncName(g), core.Describe(a), core.FuncName(g), n.chain)
@@ -996,7 +1059,7 @@ func c05DerefRule(r *core.Run, o *core.O, funcs []*ssa.Function) {
 				continue
 			}
 			if own, of := rvPath(a); own != nil && own.Parent() == g {
-				push(derefNeed{fn: g, v: own, vf: of, docP: ndp, docF: ndf, condT: ndt, chain: core.FuncName(g) + " -> " + n.chain})
+				push(derefNeed{fn: g, v: own, vf: of, docP: ndp, docF: ndf, condT: ndt, kind: nkind, chain: core.FuncName(g) + " -> " + n.chain})
 				continue
 			}
 			o.Fail(p.InstrPos(cs), "%s hands the field value %s on without the allocation step (no allocator call / Set(reflect.New) / IsNil()==false on this value before the call), and the chain %s -> %s dereferences it when the field type is a pointer: for a nil pointer field Elem() is the zero Value and the next Overflow*/Set* on it panics instead of the field being filled or an error returned",
